@@ -161,9 +161,29 @@ pub trait PacketTrait: Serialize {
 
     /// Length in bytes used when calling `to_writer_with_header`.
     fn write_len_with_header(&self) -> usize {
-        let mut sum = self.packet_header().write_len();
-        sum += self.write_len();
-        sum
+        let original_header = self.packet_header();
+        let write_len = self.write_len();
+
+        // Mirror `to_writer_with_header`: for fixed and partial lengths a normalized header for
+        // the current body length is written (the stored header may be stale or use another
+        // length encoding), only indeterminate length headers are written as stored.
+        let header_len = match original_header.packet_length().maybe_len() {
+            Some(_) => u32::try_from(write_len)
+                .ok()
+                .and_then(|len| {
+                    PacketHeader::from_parts(
+                        original_header.version(),
+                        original_header.tag(),
+                        PacketLength::Fixed(len),
+                    )
+                    .ok()
+                })
+                .map(|header| header.write_len())
+                .unwrap_or_else(|| original_header.write_len()),
+            None => original_header.write_len(),
+        };
+
+        header_len + write_len
     }
 }
 
